@@ -17,7 +17,7 @@ import z3
 from psvc.contract import Contract, Clause, register, T, And, Or, Not, Implies, If, asserted
 from psvc import spec
 from contracts.task import make_task, TASK_CLASSES
-from contracts.task_constraint import assume_valid_task, valid_placement, fresh_consts, KINDS6
+from contracts.task_constraint import assume_valid_task, valid_placement, fresh_consts, KINDS6, dated_kw
 
 
 def busy(worker, task):
@@ -50,6 +50,10 @@ class StaticAssignment(Contract):
         for t in CODES:
             for mode in ("static", "delayed", "dynamic"):
                 out.append(dict(t=t, mode=mode))
+        # the same for tasks that declare a release date and a (soft / hard) due date
+        for mode in ("static", "delayed", "dynamic"):
+            out.append(dict(t="Vo", mode=mode, dated="soft"))
+            out.append(dict(t="Fm", mode=mode, dated="mixed"))
         return out
 
     def scenario(self, ps, P, case):
@@ -57,7 +61,7 @@ class StaticAssignment(Contract):
         pb = ps.SchedulingProblem(name="pb", horizon=P.int("H"))
         cls, opt = decode(case["t"])
         assume_valid_task(P, cls, "t")
-        t = make_task(ps, P, cls, "t", optional=opt)
+        t = make_task(ps, P, cls, "t", optional=opt, **dated_kw(case, 0))
         w = ps.Worker(name="w", productivity=P.int("prod"))
         if case["mode"] == "static":
             t.add_required_resource(w)
@@ -247,6 +251,9 @@ class SelectWorkersContract(Contract):
         # task's span (the whole span is one such span)
         out.append(dict(n=2, kind="exact", t="Fm", dynamic=True))
         out.append(dict(n=3, kind="min", t="Vo", dynamic=True))
+        # tasks that declare a release date and a (soft / hard) due date
+        out.append(dict(n=2, kind="exact", t="Fo", dated="soft"))
+        out.append(dict(n=2, kind="min", t="Vm", dated="mixed"))
         return out
 
     def nb(self, P, case):
@@ -257,7 +264,7 @@ class SelectWorkersContract(Contract):
         pb = ps.SchedulingProblem(name="pb", horizon=P.int("H"))
         cls, opt = decode(case["t"])
         assume_valid_task(P, cls, "t")
-        t = make_task(ps, P, cls, "t", optional=opt)
+        t = make_task(ps, P, cls, "t", optional=opt, **dated_kw(case, 0))
         workers = [ps.Worker(name=f"w{i+1}") for i in range(case["n"])]
         kw = {}
         if not case.get("default_nb"):
@@ -349,6 +356,7 @@ class CumulativeCapacity(Contract):
             out.append(dict(size=3, ts=("Fm", "Vo", "Fm", "Vm")))
             out.append(dict(size=4, ts=("Fm",) * 5))
         out.append(dict(size=2, ts=("Fm", "Fm", "Fm"), default_productivity=True))
+        out.append(dict(size=2, ts=("Fm", "Vo", "Fm"), dated="mixed"))
         return out
 
     def scenario(self, ps, P, case):
@@ -362,7 +370,7 @@ class CumulativeCapacity(Contract):
         for i, code in enumerate(case["ts"]):
             cls, opt = decode(code)
             assume_valid_task(P, cls, f"t{i+1}")
-            t = make_task(ps, P, cls, f"t{i+1}", optional=opt)
+            t = make_task(ps, P, cls, f"t{i+1}", optional=opt, **dated_kw(case, i))
             t.add_required_resource(cw)
             tasks.append(t)
         solver = ps.SchedulingSolver(problem=pb)
